@@ -617,6 +617,9 @@ def search(ctx, deep=False):
         e7, v7 = threadcfg.api_thread_sweep(ctx, ("randmeth", "fourier", "incompr"), ctx.scale(4, 30))
         ev += e7
         viol += v7
+        e8, v8 = threadcfg.api_copies_and_sizes(ctx, ("randmeth", "fourier", "incompr"), ctx.scale(2, 8))
+        ev += e8
+        viol += v8
     seen, out = set(), []
     for v in viol:                      # one representative per key first, so that no class is crowded out
         if v["key"] not in seen:
